@@ -223,10 +223,8 @@ theorem pepKnots_ne_nil (sorted : List (Psm × Rat)) (h : (sorted.filter isTgt).
 theorem histNnlsOf_some (es d scores : List Rat) (r : List Rat) (h : histNnlsOf es d scores = some r) :
     r = scores.map (histPepFun es d) := by
   unfold histNnlsOf at h
-  split at h
-  · cases h
-  · cases h
-    rfl
+  cases h
+  rfl
 
 theorem histPepFun_range (es d : List Rat) (x : Rat) : 0 ≤ histPepFun es d x ∧ histPepFun es d x ≤ 1 :=
   ⟨le_clip 0 1 _ (by norm_num), clip_le 0 1 _⟩
